@@ -7,6 +7,7 @@ import (
 	"go/ast"
 	"go/token"
 	"go/types"
+	"sort"
 	"strings"
 )
 
@@ -210,6 +211,11 @@ func checkC16(ctx *Ctx, r *Report) {
 
 	// ---- (4) resolution identity
 	c16ResolutionIdentity(ctx, r)
+
+	// ---- (5) found by a bug hunt: constants through references, constraints through references
+	c16ConstantBranchesAgree(ctx, r)
+	c09ConstraintsThroughReferences(ctx, r)
+	c10ConstantRefToEnum(ctx, r)
 }
 
 func isConstRefSkip(info *types.Info, cond ast.Expr) bool {
@@ -485,4 +491,66 @@ func c16ResolutionIdentity(ctx *Ctx, r *Report) {
 	}
 	r.Count("resolution functions", n)
 	r.Floor("resolution functions", 5)
+}
+
+// c16ConstantBranchesAgree: a field whose value the schema fixes is set by the constructor whether the constant is
+// written in place or reached through a reference. In structObjectToBuilder the branches that append a constant
+// assignment must not differ in what they demand of the field itself (Required, Nullable): an optional reference to
+// a constant that falls through to the option branch becomes an option typed by the constant.
+func c16ConstantBranchesAgree(ctx *Ctx, r *Report) {
+	fn := ctx.LookupMethod("internal/ast", "BuilderGenerator", "structObjectToBuilder")
+	fd, p := ctx.DeclOf(fn)
+	if fd == nil || fd.Body == nil {
+		r.Undecided("anchor lost: BuilderGenerator.structObjectToBuilder")
+		return
+	}
+	info := p.TypesInfo
+	type branch struct {
+		is    *ast.IfStmt
+		extra []string
+	}
+	var branches []branch
+	ast.Inspect(fd.Body, func(n ast.Node) bool {
+		is, ok := n.(*ast.IfStmt)
+		if !ok {
+			return true
+		}
+		constant := false
+		ast.Inspect(is.Body, func(m ast.Node) bool {
+			if c, ok := m.(*ast.CallExpr); ok {
+				if f := callee(info, c); f != nil && f.Name() == "ConstantAssignment" {
+					constant = true
+				}
+			}
+			return true
+		})
+		if !constant {
+			return true
+		}
+		var extra []string
+		var conj func(e ast.Expr)
+		conj = func(e ast.Expr) {
+			if be, ok := ast.Unparen(e).(*ast.BinaryExpr); ok && be.Op == token.LAND {
+				conj(be.X)
+				conj(be.Y)
+				return
+			}
+			txt := exprString(e)
+			if strings.Contains(txt, ".Required") || strings.Contains(txt, ".Nullable") {
+				extra = append(extra, txt)
+			}
+		}
+		conj(is.Cond)
+		sort.Strings(extra)
+		branches = append(branches, branch{is, extra})
+		return true
+	})
+	r.Count("constant branches of structObjectToBuilder", len(branches))
+	r.Floor("constant branches of structObjectToBuilder", 2)
+	for i, b := range branches {
+		same := strings.Join(b.extra, " && ") == strings.Join(branches[0].extra, " && ")
+		r.Check(same, "siblings/constant-branches-agree", fmt.Sprintf("structObjectToBuilder constant branch #%d", i+1), b.is.Pos(),
+			"the branch puts the same demands on the field (required / nullable) as the other constant branches",
+			"this constant branch also demands ["+strings.Join(b.extra, ", ")+"] of the field while another one demands ["+strings.Join(branches[0].extra, ", ")+"]: a field fixed by the schema that fails the extra test falls through to the option branch — an optional reference to a constant becomes an option whose argument is typed by the constant (`func OptC(optC Const)`: Const is not a type)")
+	}
 }
